@@ -10,13 +10,24 @@ ORACLES = {
     'messages':  '  ora_messages(OUT, &R, 1);\n',
     'positions': '  ora_positions(OUT, &R);\n',
     'trace':     '  ora_trace_hash(OUT, &R);\n',
+    'dual':      '  CHECK(OUT[O_ALT_OK] == OUT[O_OK], "same optional with verbose on/off and with or without an error stream");\n'
+                 '  if (OUT[O_OK] && OUT[O_ALT_OK]) CHECK(OUT[O_ALT_VALUE] == OUT[O_VALUE], "same value with verbose on/off and with or without an error stream");\n'
+                 '  CHECK(OUT[O_ALT_NRED] == OUT[O_NRED], "same functor calls with verbose on/off and with or without an error stream");\n',
+    'ctx_rw':    '  CHECK((OUT[O_FLAGS] & 8u) == 0, "every >>= functor receives the very object the caller supplied");\n'
+                 '  CHECK(OUT[O_CTX] == R.nctx, "mutations made through the context are visible to the caller: one per >>= reduction, none from >= functors");\n',
+    'ctx_ro':    '  CHECK((OUT[O_FLAGS] & 8u) == 0, "every >>= functor receives the context the caller supplied (same identity / same value)");\n'
+                 '  CHECK(OUT[O_CTX] == 0, "a const or by-value context is not modified for the caller");\n',
+    'lexcalls':  '  CHECK((OUT[O_FLAGS] & 16u) == 0, "the custom lexer is only asked inside the buffer");\n'
+                 '  CHECK(OUT[O_LEXCALLS] == ref_lexcalls, "the custom lexer is asked exactly once per needed term");\n'
+                 '  CHECK(OUT[O_LEXHASH] == ref_lexhash, "the custom lexer is asked at the reference offsets (after the same whitespace skipping)");\n',
     'silent':    '  if (OUT[O_OK]) CHECK(OUT[O_NMSG] == 0, "a successful non-verbose parse writes nothing");\n',
 }
 
 class ParseCase:
     """one (grammar, LEN, options) instantiation: a C++ unit + harness text + bounds"""
     def __init__(self, wd, g, L, asserts, ws=0, nl=0, verbose=0, mode='functional', tag='', extra_body='', wrapper=None, in_assume=None,
-                 witness=None, extra_defs=(), lr=None, ctx=None):
+                 witness=None, extra_defs=(), lr=None, ctx=None, variant='plain', ctxkind=0):
+        self.variant = variant; self.ctxkind = ctxkind
         self.g = g; self.L = L; self.asserts = list(asserts); self.ws = ws; self.nl = nl; self.verbose = verbose; self.mode = mode
         self.lr = lr or lr1.LR1(g)
         b = lr1.bounds(g, self.lr, L, verbose=bool(verbose))
@@ -27,17 +38,17 @@ class ParseCase:
         if self.hashlog:
             bs = lr1.bounds(g, self.lr, L, verbose=True)
             self.maxst = bs['nstates_printed'] + 1; self.maxmsg = 1
-        self.name = '%s_L%d_o%d%d%d%s' % (g.name, L, ws, nl, verbose, tag)
+        self.name = '%s_L%d_o%d%d%d%s%s' % (g.name, L, ws, nl, verbose, tag, '' if variant == 'plain' else '_%s%d' % (variant, ctxkind))
         self.defs = ['LEN=%d' % L, 'MAXMSG=%d' % self.maxmsg, 'MAXRED=%d' % self.maxred, 'MAXTERM=%d' % self.maxterm,
                      'OPT_WS=%d' % ws, 'OPT_NL=%d' % nl, 'OPT_VERBOSE=%d' % verbose,
-                     'OPT_MASK=0', 'OPT_FIXED=%d' % (ws | (nl << 1) | (verbose << 2)),
+                     'OPT_MASK=%s' % ('0xff00' if variant == 'ctx' else '0'), 'OPT_FIXED=%d' % (ws | (nl << 1) | (verbose << 2)), 'LEXMAX=%d' % max(L, 1),
                      'RSTEPS=%d' % (b['steps'] + 2), 'RSTK=%d' % (b['depth'] + 2)] + list(extra_defs)
         if self.hashlog: self.defs += ['HASHLOG', 'MAXST=%d' % self.maxst]
         self.wd = wd
-        cpp = wrapper or emit.parse_wrapper_cpp(g)
+        cpp = wrapper or emit.parse_wrapper_cpp(g, variant=variant, ctxkind=ctxkind)
         self.unit = vlib.Unit(wd, 'u_' + self.name, cpp, defines=self.defs, ir2c_flags=(['--writeset'] if mode == 'writeset' else []))
         body = ''.join(ORACLES[a] for a in self.asserts) + extra_body
-        self.harness = emit.parse_harness_c(os.path.basename(self.unit.c), lr1.emit_tables(g, self.lr), body)
+        self.harness = emit.parse_harness_c(os.path.basename(self.unit.c), lr1.emit_tables(g, self.lr), body, variant=variant)
         self.in_assume = in_assume; self.witness = witness
         self.native = {}
 
@@ -63,7 +74,7 @@ class ParseCase:
             h = h.replace('#ifdef __CPROVER__\nuint8_t nondet_uchar', 'static void oracle(void) { struct ref_out R; ref_parse(IN, LEN, OPTS & 1u, (OPTS >> 1) & 1u, (OPTS >> 2) & 1u, &R);\n  WITNESS(%s, "interesting outcome reachable"); }\n#ifdef __CPROVER__\nuint8_t nondet_uchar' % self.witness, 1)
         q = vlib.Query((qid or ('q_' + self.name)) + ('_wit' if witness else ''), self.unit, h, bounds=self.bounds(), fn_bounds=self.fn_bounds(),
                        default_unwind=self.default_unwind(), mode=('functional' if self.mode == 'writeset' else self.mode), defines=defs,
-                       expect=('witness' if witness else 'hold'), timeout=timeout, mem_gb=mem_gb, inputs=['IN', 'OPTS'],
+                       expect=('witness' if witness else 'hold'), timeout=timeout, mem_gb=mem_gb, inputs=['IN', 'OPTS', 'ANS_IDX', 'ANS_LEN'],
                        meta={'unit': self.g.name, 'L': self.L, 'opts': [self.ws, self.nl, self.verbose], 'asserts': self.asserts, 'case': self})
         return q
 
@@ -72,19 +83,22 @@ class ParseCase:
         d = self.wd
         hc = os.path.join(d, 'n_' + self.name + '.c')
         with open(hc, 'w') as f: f.write(self.harness)
-        shim = os.path.join(d, 'shim.cpp')
+        shim = os.path.join(d, 'shim_%s.cpp' % self.variant)
         if not os.path.exists(shim):
-            with open(shim, 'w') as f: f.write(emit.NATIVE_SHIM_CPP)
+            with open(shim, 'w') as f: f.write(emit.native_shim_cpp(self.variant))
         ok1, p1 = vlib.native_build(d, 'real_' + self.name, [self.unit.cpp, shim, hc], defines=self.defs + ['USE_REAL'])
         ok2, p2 = vlib.native_build(d, 'xlat_' + self.name, [hc], defines=self.defs + ['NO_R4'], cxx='gcc')
         self.native = {'real': p1 if ok1 else None, 'xlat': p2 if ok2 else None, 'err': (None if ok1 else p1) or (None if ok2 else p2)}
         return self.native
 
-    def run_native(self, which, inbytes, opts=None):
+    def run_native(self, which, inbytes, opts=None, extra=None):
         exe = self.native.get(which)
         if not exe: return None
         o = self.ws | (self.nl << 1) | (self.verbose << 2) if opts is None else opts
-        rc, out, w, _ = vlib.run([exe, vlib.hexs(inbytes), str(o)], timeout=20)
+        xa = []
+        if extra and extra.get('ANS_IDX') is not None:
+            xa = [','.join(str(x) for x in extra['ANS_IDX']), ','.join(str(x) for x in (extra.get('ANS_LEN') or []))]
+        rc, out, w, _ = vlib.run([exe, vlib.hexs(inbytes), str(o)] + xa, timeout=20)
         res = {'rc': rc, 'out': None, 'verdict': None, 'why': ''}
         for ln in out.split('\n'):
             if ln.startswith('OUT '): res['out'] = ln[4:].strip()
@@ -113,8 +127,13 @@ class ParseCase:
         if not self.native.get('real') or not self.native.get('xlat'):
             return {'ok': False, 'n': 0, 'why': 'native build failed: %s' % self.native.get('err')}
         n = 0
+        rnd = random.Random(seed)
         for inp in self.sample_inputs(seed):
-            a = self.run_native('real', inp); b = self.run_native('xlat', inp); n += 1
+            extra = None; opts = None
+            if self.variant == 'anslex':
+                extra = {'ANS_IDX': [rnd.choice(list(range(self.g.nt)) + [0xffff]) for _ in range(self.L)], 'ANS_LEN': [rnd.randint(1, max(1, self.L - i)) for i in range(self.L)]}
+            if self.variant == 'ctx': opts = (self.ws | (self.nl << 1) | (self.verbose << 2)) | (rnd.randrange(256) << 8)
+            a = self.run_native('real', inp, opts, extra); b = self.run_native('xlat', inp, opts, extra); n += 1
             if a is None or b is None or a['out'] != b['out'] or a['out'] is None:
                 return {'ok': False, 'n': n, 'why': 'real and translated disagree on %s: %s / %s' % (vlib.hexs(inp), a and (a['out'] or a['why'])[:120], b and (b['out'] or b['why'])[:120])}
         return {'ok': True, 'n': n, 'why': ''}
